@@ -232,6 +232,13 @@ class Runtime:
         self.in_region = False
         self.keep_footprints = keep_footprints
         self.contended = contended   # {region index: {root id: set(ids)}} for static reduction in sched mode
+        # module-level arrays seen by twins stay registered (with fresh ids) across resets
+        if not hasattr(self, 'globals_'):
+            self.globals_ = []
+        for sh, root in self.globals_:
+            root.id = len(self.roots)
+            self.roots.append(root)
+            sh._root = root.id
         self.problems = []
         self.uninit_reads = []
         self.naccess = 0
@@ -244,6 +251,15 @@ class Runtime:
         rid = len(self.roots)
         self.roots.append(Root(rid, a, label, kind))
         return ShadowArray(a, self, rid, np.arange(a.size, dtype=np.int64).reshape(a.shape))
+
+    def track_global(self, arr, label):
+        """a module-level array referenced by a kernel: shared by every call, so tracked as a root that survives resets"""
+        a = np.asarray(arr)
+        root = Root(len(self.roots), a, label, 'global')
+        self.roots.append(root)
+        sh = ShadowArray(a, self, root.id, np.arange(a.size, dtype=np.int64).reshape(a.shape))
+        self.globals_.append((sh, root))
+        return sh
 
     def adopt(self, res):
         """array produced by a numpy call: new tracked root in the sequential part, private temporary in a body"""
@@ -733,6 +749,7 @@ class Twins:
     def __init__(self, rt, interpret_nested=True):
         self.rt = rt
         self.cache = {}
+        self._garrays = {}
         self.vnumba = VNumba(rt)
         self.npproxy = NpProxy(rt)
 
@@ -754,6 +771,11 @@ class Twins:
             return ModuleProxy(val, self)
         if self.pyfunc(val) is not None:
             return _Lazy(self, val)
+        if isinstance(val, np.ndarray) and not isinstance(val, ShadowArray) and val.ndim >= 1 and val.size:
+            key = id(val)
+            if key not in self._garrays:
+                self._garrays[key] = self.rt.track_global(val, 'module-level array')
+            return self._garrays[key]
         return val
 
     def twin(self, disp):
@@ -907,3 +929,17 @@ def explore_lines(calls, file_filter, bound, modules=(), max_exec=None):
     yield from explore(run_one, bound, max_exec=max_exec)
     for st in states:
         st.restore()
+
+
+def concurrent_calls(rt, calls):
+    """Run the zero-argument callables (twin calls on SEPARATE argument arrays) as the bodies of one parallel region and
+    return (results, conflicts): any conflict is two calls touching the same element of shared (module-level) state
+    with at least one write - concurrent use of the kernel from two threads would race on it."""
+    rt.reset(mode='seq')
+    results = [None] * len(calls)
+
+    def body(i):
+        results[i] = calls[i]()
+    rt.parallel_for(len(calls), body, 'concurrent-calls')
+    reg = rt.regions[-1]
+    return results, list(reg.conflicts)
